@@ -18,6 +18,8 @@ def check(ctx):
     rep.floor("timestamps rebuilt from components", nr, 1)
     nu = _tzr.check_utc_shortcut(ctx, rep)
     rep.floor("lookup-free UTC results in the Zinc reader", nu, 1)
+    nmg = _hc.check_member_guards(ctx, rep)
+    rep.floor("Hayson member / element write sites", nmg, 38)
     n1 = streams.check_reader_calls(ctx, rep)
     rep.floor("calls on the input reader under zinc::decode / filter", n1, 2)
     n2 = streams.check_iterator_is_eager(ctx, rep)
